@@ -370,8 +370,11 @@ OpResult Hist::run_op(const HOp& op0) {
     }
     case OP_BUILD_TAG: {
       int xi = pick(M_ANY, op.a); if (xi < 0) break; int x = pool[xi];
-      OpScope S(*this, op, "C04,C13"); S.begin(op); cbor_item_t* it = cbor_build_tag(op.c, nodes[x].impl);
+      bool move = (op.d & 1) != 0;             // cbor_build_tag(v, cbor_move(x)); on failure the documentation makes the client restore the count
+      OpScope S(*this, op, "C04,C13"); S.begin(op); cbor_item_t* it = cbor_build_tag(op.c, move ? cbor_move(nodes[x].impl) : nodes[x].impl);
+      if (move && !it) (void)cbor_incref(nodes[x].impl);
       finish_new(S, it, [&]() { int id = new_node(MK_TAG); nodes[id].val = op.c; add_edge(id, x); return id; });
+      if (move && it && !failed()) { nodes[x].ext--; pool.erase(pool.begin() + xi); }
       break;
     }
     // ------------------------------------------------------------ containers
@@ -453,12 +456,18 @@ OpResult Hist::run_op(const HOp& op0) {
       if (!small_enough(k, TREE_BYTES_MAX / 4, 50000) || !small_enough(v, TREE_BYTES_MAX / 4, 50000) || !small_enough(m, TREE_BYTES_MAX / 2, 100000)) break;
       HNode& Mn = nodes[m]; size_t size = Mn.kids.size() / 2; bool room = !Mn.definite || size < Mn.capacity;
       OpScope S(*this, op, "C12"); uint64_t tb = table_block(Mn); S.begin(op);
-      struct cbor_pair pr; pr.key = nodes[k].impl; pr.value = nodes[v].impl;
+      bool mk = (op.d & 1) && ki != mi && ki != vi, mv = (op.d & 2) && vi != mi && vi != ki;   // the usual idiom: {.key = cbor_move(k), .value = cbor_move(v)}
+      struct cbor_pair pr; pr.key = mk ? cbor_move(nodes[k].impl) : nodes[k].impl; pr.value = mv ? cbor_move(nodes[v].impl) : nodes[v].impl;
       bool ok = cbor_map_add(Mn.impl, pr);
+      if (!ok) { if (mk) (void)cbor_incref(nodes[k].impl); if (mv) (void)cbor_incref(nodes[v].impl); if (mk || mv) failed_after_move++; }
       S.end(); R.executed = true; R.requests = S.w.requests; R.refused = S.refused; R.reported_failure = !ok;
       bool expect_ok = room && S.w.refused == 0;
       if (ok != expect_ok) { fail(S.refused ? "C12,C06" : "C12", ok ? "insert-accepted-wrongly" : "insert-refused-wrongly", S.ctx + fmt(": map_add returned %d; size %zu capacity %llu definite %d refused %d", (int)ok, size, (unsigned long long)Mn.capacity, (int)Mn.definite, (int)(S.w.refused > 0))); return R; }
-      if (ok) { add_edge(m, k); add_edge(m, v); nodes[m].inserts++; nodes[m].reallocs += S.w.reallocs; inserts_ok++; } else if (!room) refusals_capacity++;
+      if (ok) {
+        add_edge(m, k); add_edge(m, v); nodes[m].inserts++; nodes[m].reallocs += S.w.reallocs; inserts_ok++;
+        if (mk) nodes[k].ext--; if (mv) nodes[v].ext--;
+        std::vector<int> gone; if (mk) gone.push_back(ki); if (mv) gone.push_back(vi); std::sort(gone.rbegin(), gone.rend()); for (int gi : gone) pool.erase(pool.begin() + gi);
+      } else if (!room) refusals_capacity++;
       S.table_change(tb, table_block(nodes[m])); S.account(); if (!ok) S.unchanged_after_refusal();
       { HNode& N = nodes[m]; if (!N.definite && N.inserts > 0) { double G = impl_growth(); uint64_t budget = (uint64_t)std::ceil(std::log((double)std::max<uint64_t>(N.inserts, 1)) / std::log(G) - 1e-9) + 2; if (N.reallocs > budget) fail("C12", "growth-not-geometric", S.ctx + fmt(": %llu reallocations for %llu insertions", (unsigned long long)N.reallocs, (unsigned long long)N.inserts)); } }
       verify(nodes[m], S.props.c_str(), S.ctx);
@@ -482,7 +491,9 @@ OpResult Hist::run_op(const HOp& op0) {
     }
     case OP_TAG_SET: {
       int ti = pick(M_TAG, op.a), xi = pick(M_ANY, op.b); if (ti < 0 || xi < 0) break; int t = pool[ti], x = pool[xi]; if (reaches(x, t)) break;
-      OpScope S(*this, op, "C04"); S.begin(op); cbor_tag_set_item(nodes[t].impl, nodes[x].impl); S.end(); R.executed = true;
+      bool move = (op.d & 1) && ti != xi;      // cbor_tag_set_item(tag, cbor_move(x)): the client hands its reference over
+      OpScope S(*this, op, "C04"); S.begin(op); cbor_tag_set_item(nodes[t].impl, move ? cbor_move(nodes[x].impl) : nodes[x].impl); S.end(); R.executed = true;
+      if (move) { nodes[x].ext--; for (size_t pi = 0; pi < pool.size(); pi++) if ((int)pi == xi) { pool.erase(pool.begin() + pi); break; } }
       if (!nodes[t].kids.empty()) {
         // documented: the previous item's count is left alone -> the client now owns that reference
         int old = nodes[t].kids[0]; nodes[old].in_edges--; nodes[old].ext++; pool.push_back(old); tag_repointed++;
@@ -590,7 +601,8 @@ OpResult Hist::run_op(const HOp& op0) {
     case OP_DESCRIBE: {
       int xi = pick(M_ANY, op.a, true); if (xi < 0) break;
       if (!afford(pool[xi], TREE_BYTES_MAX, 20000)) break;
-      OpScope S(*this, op, "C04"); S.begin(op); describe_to_sink(nodes[pool[xi]].impl); S.end(); R.executed = true; S.account();
+      OpScope S(*this, op, "C04"); S.begin(op); uint64_t dh = describe_to_sink(nodes[pool[xi]].impl); S.end(); R.executed = true; S.account();
+      g_log.ev("describe-text", dh);
       break;
     }
     // ------------------------------------------------------------ references
@@ -656,6 +668,7 @@ OpResult Hist::run_op(const HOp& op0) {
     }
   }
   if (R.executed) {
+    g_log.ev("result", (uint64_t)op.code, (uint64_t)R.reported_failure * 2 + (uint64_t)R.refused, R.requests);
     stat_add("ops_executed");
     std::string ctx = fmt("after %s", op_name(op.code));
     const char* props = R.refused ? "C04,C06" : (op.code == OP_COPY ? "C04,C11" : "C04");
